@@ -403,15 +403,33 @@ RAW_FIELDS = ["a", "abc", "12", " 12", "12 ", "-3", "- 3", "1.5", "1.5e3", "1.5E
               "-0.0", "0.0", "1.0e10", '"', '" "', "'q'", "[a,b]"]
 RAW_EOL = ["\n", "\n", "\n", "\r\n", "\r\n", "\r", "\n\n", "\r\r\n", "\n\r", "\r\n\r\n", "\r\n\n"]
 SOUP = list('aa1122,,,;""""\n\n\r  .-e')
+NUMSOUP = list("0011199...--+eE  \t")
+BIGEXP = re.compile(r"[eE][+-]?[0-9]{3,}")
+
+
+def num_token(rng):
+    """number-looking token over digits . - + e E blank tab (no exponent of 3+ digits: overflow is not modelled)"""
+    while True:
+        if rng.random() < 0.5:
+            t = "".join(rng.choice(NUMSOUP) for _ in range(rng.choice([1, 2, 2, 3, 3, 4, 5, 6, 7])))
+        else:
+            t = rng.choice(["", " ", "\t", "  "]) + rng.choice(["", "-", "-", "- ", "+", "--"]) + \
+                rng.choice(["0", "7", "12", "007", "190"]) + \
+                rng.choice(["", "", ".", ".5", ".50", ".0", ". 5", ".5.5"]) + \
+                rng.choice(["", "", "", "e1", "E-1", "e+10", "e", "e-", "e 1", "e1.5"]) + rng.choice(["", "", "", " ", "x"])
+        if not BIGEXP.search(t):
+            return t
 
 
 def gen_raw_case(rng):
     ro = {"sep": rng.choice([",", ",", ",", ";", ";", "|", "\t", " "]), "hdr": rng.random() < 0.5}
     x = rng.random()
-    if x < 0.6:
+    if x < 0.7:
         lines = []
+        numeric = x >= 0.5
         for _ in range(rng.choice([0, 1, 1, 2, 2, 3, 4])):
-            fs = [rng.choice(RAW_FIELDS) for _ in range(rng.choice([1, 1, 2, 2, 3, 4]))]
+            fs = [num_token(rng) if numeric and rng.random() < 0.8 else rng.choice(RAW_FIELDS)
+                  for _ in range(rng.choice([1, 1, 2, 2, 3, 4]))]
             s = ro["sep"] if rng.random() < 0.92 else rng.choice([",", ";"])
             lines.append(s.join(fs))
         text = ""
@@ -628,8 +646,8 @@ def judge(c, impl, model):
 def build_cases(ctx, pool):
     rng, tier = ctx["rng"], ctx["tier"]
     cases = []
-    n = 700 if tier == "quick" else 12000
-    mix = [("wf", 0.34), ("nostr", 0.22), ("odd", 0.16), ("mixed", 0.08), ("raw", 0.20)]
+    n = 2500 if tier == "quick" else 60000
+    mix = [("wf", 0.30), ("nostr", 0.20), ("odd", 0.15), ("mixed", 0.07), ("raw", 0.28)]
     for k, (txt, ro) in enumerate(FIXED_RAW):
         cases.append({"kind": "raw", "text": txt, "ro": dict(ro)})
     # documented examples of the writer
